@@ -559,7 +559,11 @@ class SQLTranspiler(StructureVisitor, ASTTemplate):
         ds = self._get_dataset_structure(ds_node)
         table_src = self._get_dataset_sql(ds_node)
         output_ds = self._get_output_dataset()
-        output_measures = list(output_ds.get_measures_names()) if output_ds else []
+        output_measures = (
+            list(output_ds.get_measures_names())
+            if output_ds and self._is_outermost_operand()
+            else []
+        )
 
         cols: List[str] = []
         for name, comp in ds.components.items():
@@ -765,7 +769,11 @@ class SQLTranspiler(StructureVisitor, ASTTemplate):
         common_ids = sorted(left_ids & right_ids)
         all_ids = sorted(left_ids | right_ids)
 
-        output_measure_names = list(output_ds.get_measures_names()) if output_ds else []
+        output_measure_names = (
+            list(output_ds.get_measures_names())
+            if output_ds and self._is_outermost_operand()
+            else []
+        )
         left_measures = left_ds.get_measures_names()
         right_measures = right_ds.get_measures_names()
         common_measures = [m for m in left_measures if m in right_measures]
@@ -774,11 +782,8 @@ class SQLTranspiler(StructureVisitor, ASTTemplate):
         if common_measures:
             paired_measures = [(m, m) for m in common_measures]
         elif len(left_measures) == 1 and len(right_measures) == 1:
-            if output_measure_names and len(output_measure_names) == 1:
-                out_m = output_measure_names[0]
-                paired_measures = [(out_m, out_m)]
-            else:
-                paired_measures = [(left_measures[0], right_measures[0])]
+            # Pair the single measures by the names the operands actually carry.
+            paired_measures = [(left_measures[0], right_measures[0])]
 
         cols: List[str] = []
         for id_name in all_ids:
@@ -2543,6 +2548,19 @@ FROM (
             return node
         return None
 
+    def _branch_col(self, branch: AST.AST, col_name: str) -> str:
+        """Name under which a dataset branch of if/case carries the output measure ``col_name``.
+
+        A branch that is itself an expression keeps the measure name of its own operand, which
+        differs from the output name when the single measure is renamed (bool_var, int_var...).
+        """
+        ds = self._get_dataset_structure(branch)
+        if ds is not None and col_name not in ds.components:
+            measures = ds.get_measures_names()
+            if len(measures) == 1:
+                return str(measures[0])
+        return col_name
+
     def _build_dataset_if(self, node: AST.If) -> str:
         """Build SQL for dataset-level IF-THEN-ELSE with JOINs."""
         # Find the source dataset that the condition references
@@ -2591,8 +2609,16 @@ FROM (
         # Build SELECT columns
         cols: List[str] = [f"{alias}.{quote_name(id_)}" for id_ in source_ids]
         for col_name in output_measures + output_attributes:
-            t_ref = f"t.{quote_name(col_name)}" if t_type == _DATASET else self.visit(node.thenOp)
-            e_ref = f"e.{quote_name(col_name)}" if e_type == _DATASET else self.visit(node.elseOp)
+            t_ref = (
+                f"t.{quote_name(self._branch_col(node.thenOp, col_name))}"
+                if t_type == _DATASET
+                else self.visit(node.thenOp)
+            )
+            e_ref = (
+                f"e.{quote_name(self._branch_col(node.elseOp, col_name))}"
+                if e_type == _DATASET
+                else self.visit(node.elseOp)
+            )
             cols.append(
                 f"CASE WHEN {cond_expr} THEN {t_ref} ELSE {e_ref} END AS {quote_name(col_name)}"
             )
@@ -2731,13 +2757,14 @@ FROM (
             case_parts = ["CASE"]
             for i in reversed(range(len(node.cases))):
                 then_ref = (
-                    f"{then_aliases[i]}.{quote_name(measure)}"
+                    f"{then_aliases[i]}."
+                    f"{quote_name(self._branch_col(node.cases[i].thenOp, measure))}"
                     if then_types[i] == _DATASET
                     else self.visit(node.cases[i].thenOp)
                 )
                 case_parts.append(f"WHEN {cond_exprs[i]} THEN {then_ref}")
             else_ref = (
-                f"{e_alias}.{quote_name(measure)}"
+                f"{e_alias}.{quote_name(self._branch_col(node.elseOp, measure))}"
                 if e_type == _DATASET
                 else self.visit(node.elseOp)
             )
